@@ -325,7 +325,7 @@ def run(chk):
     bins = vlib.harness_build(("debug", "release"), bins=["listing"])
     known = {f["class"]: f for f in vlib.known_findings() if f.get("property") == "C12" and f.get("status") == "known"}
     quick = chk.tier == "quick"
-    nprog = 2500 if quick else 20000
+    nprog = 2500 if quick else 40000
 
     progs = [(t, e, ["directed"], r, "directed") for (t, e, r) in DIRECTED]
     rp = chk.rng.fork("prog")
